@@ -144,6 +144,11 @@ def witness_cases():
                                 {"op": "dup", "ds": "a", "id": "http://v/e2"}],
                                [{"ds": "a", "threshold": thr, "crash_after": k}, {"ds": "a", "threshold": 1}],
                                later=[[B("a", E("e1", {"p1": "c"}))]]))
+    # no duplicates at all, the last two versions keep a reference; a writer commits a newer version before the (only) flush:
+    # the compactor must not touch the latest pointer
+    cs.append(compact_case(["a"], ["e1", "e2"], [B("a", E("e1", A, r)), B("a", E("e1", Bb, r))],
+                           [{"ds": "a", "threshold": 0, "race": {"at": 1, "ents": [E("e1", {"p1": "c"}, r)]}}],
+                           later=[[B("a", E("e1", Bb, r))] + block("a", ["e1", "e2"], "x3")]))
     # two differing versions of one entity in ONE batch keeping a reference (shared reference keys), then a flip back to the first
     cs.append(compact_case(["a"], ["e1", "e2"], [B("a", E("e1", A, r), E("e1", Bb, r)), B("a", E("e1", A, r))], [{"ds": "a", "threshold": 1}]))
     cs.append(compact_case(["a"], ["e1", "e2", "e3"], [B("a", E("e1", A, {"r1": "e2"}), E("e1", A, {"r1": "e2", "r2": "e3"})), B("a", E("e1", Bb, {"r1": "e2"}))],
@@ -256,6 +261,23 @@ def gen_case(rng, tier):
     return compact_case(datasets, pool, writes, comps, later)
 
 
+def gen_refonly_race(rng):
+    """entities WITHOUT duplicates whose last two versions (different batches) keep a reference: the compactor only removes repeated
+    reference keys of the last version and must not touch the latest pointer; a writer commits a newer version before that flush"""
+    k = rng.range(1, 3)
+    pool = sc.IDS[:k]
+    refs = {i: {"r1": rng.choice(sc.IDS[:3])} for i in pool}
+    writes = [B("a", *[E(i, {"p1": "a"}, refs[i]) for i in pool]), B("a", *[E(i, {"p1": "b"}, refs[i]) for i in pool])]
+    if rng.chance(1, 3):
+        writes.append(B("a", *[E(i, {"p1": "bb"}, refs[i]) for i in pool]))
+    r = rng.range(1, k)
+    tgt = pool[rng.range(r - 1, k - 1)]                      # an entity whose instruction is not flushed yet at the r-th flush
+    ents = [E(tgt, {"p1": rng.choice(["c", "cc", 7])}, refs[tgt] if rng.chance(1, 2) else None)]
+    comps = [{"ds": "a", "threshold": rng.choice([1, 1, 2, 0]), "race": {"at": r, "ents": ents}}]
+    later = [[B("a", E(tgt, {"p1": "b"}, refs[tgt]))] + block("a", pool, "x8")]
+    return compact_case(["a"], pool, writes, comps, later)
+
+
 def gen_targeted(rng):
     """k entities whose last version is a (legacy or in-batch) duplicate, threshold 1 or 2; either a writer at the r-th flush
     writing entities whose re-point was (or was not yet) flushed, or a kill at the r-th flush followed by a full compaction"""
@@ -286,7 +308,8 @@ def gen_targeted(rng):
 def gen(rng, tier):
     n = {"quick": 60, "thorough": 1000, "search": 250}[tier]
     m = {"quick": 20, "thorough": 300, "search": 80}[tier]
-    return [gen_case(rng, tier) for _ in range(n)] + [gen_targeted(rng) for _ in range(m)]
+    return ([gen_case(rng, tier) for _ in range(n)] + [gen_targeted(rng) for _ in range(m)]
+            + [gen_refonly_race(rng) for _ in range(m // 3)])
 
 
 def run(binp, cases):
